@@ -38,7 +38,7 @@ INFO = dict(
          'BytesIO -> SymBytesIO (3.5)', 'zlib.crc32 -> uninterpreted term with the chaining law (3.7)', 'socket recorder; frames read from the send queue'],
   assumptions=['topic and payloads are byte strings (the wire type)'],
 )
-EXPECT_COVERS = ['produce-empty-list', 'produce-empty-payload', 'produce-two-payloads', 'acks-out-of-range', 'metadata-two-brokers', 'reply-routed']
+EXPECT_COVERS = ['puts-serialized-while-transport-opening', 'produce-empty-list', 'produce-empty-payload', 'produce-two-payloads', 'acks-out-of-range', 'metadata-two-brokers', 'reply-routed']
 
 
 def install_models():
@@ -75,6 +75,7 @@ def jobs(tier):
         if npart == 0 and nr: continue
         js.append(dict(name='metadata-b%d-p%d-r%d' % (nb, npart, nr), op='mresp', nb=nb, npart=npart, nr=nr, cost=3))
   js.append(dict(name='routing', op='routing', cost=2))
+  js.append(dict(name='concurrent-during-open', op='duringopen', cost=50))
   return js
 
 
@@ -217,6 +218,52 @@ def make_body(job):
           check('mresp.partition', sand(pm.partition_id == pid, pm.leader == leader, len(pm.replicas) == len(reps), len(pm.isr) == len(isr)))
           for a, b in zip(pm.replicas, reps): check('mresp.replica', a == b)
           for a, b in zip(pm.isr, isr): check('mresp.isr', a == b)
+    elif op == 'duringopen':
+      # two different Put requests pass the real KafkaSerializerSink while the KafkaTransportSink underneath is still
+      # opening: the frame carrying each request's correlation id must contain that request's topic and payloads
+      import gevent, io, struct as _st
+      from symex import net as netm, vtime
+      from symex.values import fresh_real
+      from . import stacks
+      from .fakes import Ep, OneProvider
+      e = stacks.setup()
+      for m in (bin_mod, kp_mod, ks_mod, mux_mod):
+        for n_ in ('pack', 'unpack', 'calcsize', 'Struct'):
+          if hasattr(m, n_): setattr(m, n_, getattr(_st, n_))
+        if hasattr(m, 'BytesIO'): m.BytesIO = io.BytesIO
+      bin_mod.Structs.Byte = _st.Struct('!B'); bin_mod.Structs.Int16 = _st.Struct('!h'); bin_mod.Structs.Int32 = _st.Struct('!i'); bin_mod.Structs.Int64 = _st.Struct('!q')
+      KafkaProtocol.MSG_STRUCT = _st.Struct('!BBii'); KafkaProtocol.MSG_HEADER = _st.Struct('!qiI'); KafkaProtocol.PRODUCE_HEADER = _st.Struct('!hii')
+      import zlib; kp_mod.zlib = zlib
+      L = fresh_real('open_latency', 0, 3, lo_strict=True)
+      frames = []
+      class RawPeer(netm.FramedPeer):
+        def on_frame(self, frame): frames.append(frame)
+      script = netm.Script()
+      e.net.endpoint('a', 1, peer=lambda s: RawPeer(s, script), connect_delay=L)
+      transport = KafkaTransportSink.Builder().CreateSink({'endpoint': Ep('a', 1), 'label': 'svc'})
+      ser = ks_mod.KafkaSerializerSink(OneProvider(transport), None, {'label': 'svc'})
+      transport.Open()
+      sent = []
+      def issue(i):
+        st, term, _ = new_call()
+        msg = MethodCallMessage(None, 'Put', (b'topic-%d' % i, [b'payload-%d' % i], 1), {})
+        msg.properties[MessageProperties.Endpoint] = KafkaEndpoint('a', 1, i)
+        sent.append((i, msg))
+        ser.AsyncProcessRequest(st, msg, None, {})
+      for i in range(2):
+        at = fresh_real('request_at%d' % i, 0, 3)
+        gevent.spawn_later(at, issue, i)
+      gevent.sleep(8)
+      cover('puts-serialized-while-transport-opening')
+      check('duringopen.both-frames-sent', len(frames) == 2)
+      for i, msg in sent:
+        tag = msg.properties.get(mux_mod.Tag.KEY)
+        mine = [f for f in frames if int.from_bytes(f[4:8], 'big') == tag]
+        check('duringopen.one-frame-per-correlation-id', len(mine) == 1)
+        if len(mine) == 1:
+          check('duringopen.frame-carries-own-topic-and-payload', (b'topic-%d' % i) in mine[0] and (b'payload-%d' % i) in mine[0])
+      check('no-greenlet-error', not vtime.ERRORS)
+      transport.Close()
     elif op == 'routing':
       sink = KafkaTransportSink(Sock(), 'svc'); sink._Init(); sink._state = ChannelState.Open
       t0 = fresh_int('t0', 2, 2 ** 24 - 2); t1 = fresh_int('t1', 2, 2 ** 24 - 2)
